@@ -81,7 +81,9 @@ SweepPredicted(e) ==        \* indices of the last words that complete prefix e.
     IN { t * (2^cs) + BitsToNat(Checksum(BitsToBytes(pbits \o SubSeq(Bits11(t * (2^cs)), 1, tb)))) : t \in 0..(2^tb - 1) }
 
 Inv_C02(e) ==
-    CASE e.op = "Check" -> (IsSupported(e.lang) /\ Canonical(e.in, e.lang) => NoCrash(e) /\ e.err.nil /\ e.valid)
+    CASE e.op = "Check" -> /\ (IsSupported(e.lang) /\ Canonical(e.in, e.lang) => NoCrash(e) /\ e.err.nil /\ e.valid)
+                           \* whatever a generator returned with a nil error (under a supported language) must validate
+                           /\ (Has(e, "gen") /\ e.gen /\ IsSupported(e.lang) => NoCrash(e) /\ e.err.nil /\ e.valid)
       [] e.op = "Sweep" -> SweepPredicted(e) \subseteq {e.accepted[i] : i \in 1..Len(e.accepted)}
       [] OTHER -> TRUE
 
@@ -115,7 +117,15 @@ Inv_C09(e) ==
             ELSE (ReadFullOK => e.err.nil /\ e.out # <<>>) /\ (e.err.nil => e.out # <<>>) /\ (~e.err.nil => e.out = <<>>)
       [] OTHER -> TRUE
 
+\* calls that overlapped in time on one injected source: the harness's source attributes to each call the bytes
+\* its own reads delivered (e.delivered)
+AttributedOK(e) ==
+    LET nd == e.n.v + e.n.v \div 3 IN
+    IF Len(e.delivered) >= nd
+    THEN e.err.nil /\ (IsSupported(e.lang) => e.out = Mnemonic(SubSeq(e.delivered, 1, nd), e.lang))
+    ELSE e.out = <<>> /\ ~e.err.nil
 Inv_C06(e) ==
+    IF e.op = "NewMnemonic" /\ Has(e, "delivered") THEN NoCrash(e) /\ (BigOK(e.n) => AttributedOK(e)) ELSE
     e.op = "NewMnemonic" /\ BigOK(e.n) /\ source # "os" =>
         IF ReadFullOK
         THEN lastErr = "" => /\ e.err.nil
@@ -197,6 +207,7 @@ Inv_C13(e) ==
 IsConc(e) == Has(e, "conc") /\ e.conc
 Inv_C12(e) ==
     CASE e.op = "RaceReport" -> e.n = 0
+      [] IsConc(e) /\ e.op = "NewMnemonic" /\ Has(e, "delivered") -> NoCrash(e) /\ (BigOK(e.n) => AttributedOK(e))
       [] IsConc(e) /\ e.op = "NewMnemonic" ->
             /\ NoCrash(e)
             /\ (BigOK(e.n) /\ IsSupported(e.lang) => e.err.nil /\ Canonical(e.out, e.lang) /\ Len(Tokens(e.out)) = e.n.v)
